@@ -3,6 +3,7 @@
 from __future__ import annotations
 
 import ast
+import copy
 import logging
 from typing import (
     TYPE_CHECKING,
@@ -13,6 +14,7 @@ from typing import (
 )
 
 import numpy as np
+import onnx
 import onnx_ir as ir
 
 import onnxscript
@@ -588,6 +590,9 @@ class Converter:
         if isinstance(val, np.ndarray):
             # Script-time constants are fixed now: do not share memory with the caller's array.
             val = val.copy()
+        elif isinstance(val, (onnx.TensorProto, ir.Tensor)):
+            # ... nor with a tensor object the caller may modify later.
+            val = copy.deepcopy(val)
         if attr_type == ir.AttributeType.TENSOR:
             val = ir.tensor(val)
         attr = ir.convenience.convert_attribute(attr_name, val, attr_type)
